@@ -8,6 +8,7 @@ package jsgen
 
 import (
 	"fmt"
+	"regexp"
 	"strings"
 
 	"pgregory.net/rapid"
@@ -102,9 +103,9 @@ type g struct {
 	strict   bool
 }
 
-func (x *g) feat(f string)            { x.prog.Feats[f]++ }
-func (x *g) es(min int) bool          { return x.cfg.ES == 0 || x.cfg.ES >= min }
-func (x *g) guard(name string) bool   { return x.cfg.Guards != nil && x.cfg.Guards[name] }
+func (x *g) feat(f string)               { x.prog.Feats[f]++ }
+func (x *g) es(min int) bool             { return x.cfg.ES == 0 || x.cfg.ES >= min }
+func (x *g) guard(name string) bool      { return x.cfg.Guards != nil && x.cfg.Guards[name] }
 func (x *g) n(label string, max int) int { return rapid.IntRange(0, max).Draw(x.t, label) }
 func (x *g) chance(label string, oneIn int) bool {
 	return rapid.IntRange(0, oneIn-1).Draw(x.t, label) == 0
@@ -1717,6 +1718,11 @@ func (x *g) funcDecl(d int) string {
 			if reservedName[strings.TrimSpace(inner)] {
 				inner = " fe"
 			}
+			// the name of a function expression shadows an outer variable of that name inside the body: the body was
+			// generated with the outer one in mind (a string, say), so the name must not occur in it
+			if regexp.MustCompile(`(^|[^\w$.])` + regexp.QuoteMeta(strings.TrimSpace(inner)) + `($|[^\w$])`).MatchString(body + " " + plist) {
+				inner = " fe"
+			}
 			x.feat("named-function-expression")
 		}
 		s = k + " " + nm + x.s() + "=" + x.s() + "function" + inner + x.s() + "(" + plist + ")" + body
@@ -2065,7 +2071,9 @@ func Gen(t *rapid.T, cfg Config) Program {
 	}
 	if cfg.Goal == "module" {
 		var exps []string
-		for _, b := range x.visible(func(b *binding) bool { return b.scope == x.sc && b.kind != "free" && b.kind != "fn" || b.scope == x.sc && b.kind == "fn" }) {
+		for _, b := range x.visible(func(b *binding) bool {
+			return b.scope == x.sc && b.kind != "free" && b.kind != "fn" || b.scope == x.sc && b.kind == "fn"
+		}) {
 			if info.lexNames[b.name] && (b.name == "dflt" || b.name == "ix" || b.name == "y" || b.name == "ns" || b.name == "depf") {
 				continue
 			}
